@@ -11,7 +11,7 @@ TRUSTED = vcheck.STD_TRUSTED + [
     "keys are the pre-images of the UUIDs memory.go uses as map keys; 'key equal <-> UUID equal' is checked by h_store "
     "on every universe and argument pool it generates (collisions of the component UUIDs are property C06)",
     "Triple.String() order is supplied to the model as a rank (position of the string in Go string order)",
-    "lookup results are compared through a 61-bit polynomial digest computed by h_store and by the model inside Coq; "
+    "lookup results are compared through a 64-bit polynomial digest computed by h_store and by the model inside Coq; "
     "a sample is additionally compared element by element in the failing-input search",
 ]
 
